@@ -1,0 +1,22 @@
+//go:build verif
+
+package factory
+
+import (
+	"github.com/go-kid/ioc/container"
+)
+
+// NewWithRegistries builds the default factory around caller-supplied registries.
+// It exists only in builds tagged `verif`: a verification harness passes wrappers
+// around the real support.Default…Registry() values (a call tracer, an
+// enumeration-order permuter). Nothing else differs from Default().
+func NewWithRegistries(dr container.DefinitionRegistry, scr container.SingletonComponentRegistry) container.Factory {
+	f := Default().(*defaultFactory)
+	if dr != nil {
+		f.definitionRegistry = dr
+	}
+	if scr != nil {
+		f.singletonComponentRegistry = scr
+	}
+	return f
+}
